@@ -36,6 +36,10 @@ func init() {
 		"bits.Len64(x) is modelled by its definition: the least n with x < 2^n",
 		"Skip on group records (wire types 3/4): only safety, progress and termination are proved; equality with the recursive record length is not stated (bounded stand-in not built)",
 	})
+	checks["C16"] = handCheck("C16", []string{
+		"protobuf-go is not re-verified: proto.MarshalOptions.Marshal, the registries, dynamicpb and anypb.UnmarshalTo have trusted contracts (listed); Unpack(Pack(m)) == m and the agreement of the two resolver paths rest on them",
+		"a nil *anypb.Any is outside the input domain of Unpack (precondition)",
+	})
 	checks["C17"] = handCheck("C17", []string{
 		"machine arithmetic is modelled exactly as mathematical integers with explicit wrap-around (mod 2^64 / 2^32)",
 		"AddStd: agreement with Add is not proved (time.Time arithmetic is outside the supported subset); Add is proved against the mathematical instant t+d directly",
